@@ -104,12 +104,20 @@ pub fn abstract_numbers(s: &str) -> String {
 pub fn guarded<T>(f: impl FnOnce() -> T) -> Result<T, (String, String)> {
     IN_CASE.with(|c| *c.borrow_mut() = true);
     LAST_PANIC.with(|p| *p.borrow_mut() = None);
+    if std::env::var("VERIF_TRACE").is_ok() {
+        pumpkin_solver::verif_hooks::enable(1_000_000);
+    }
     let r = catch_unwind(AssertUnwindSafe(f));
     IN_CASE.with(|c| *c.borrow_mut() = false);
     match r {
         Ok(v) => Ok(v),
         Err(_) => {
             // a panic may leave the verification tap enabled with stale data
+            if std::env::var("VERIF_TRACE").is_ok() {
+                for r in pumpkin_solver::verif_hooks::drain().0 {
+                    eprintln!("  {:?} {} dl={} pos={} {:?} <- {:?} {:?}", r.kind, r.propagator, r.decision_level, r.position, r.propagated, r.reason, r.reason_positions);
+                }
+            }
             pumpkin_solver::verif_hooks::disable();
             let (loc, msg) = LAST_PANIC.with(|p| p.borrow_mut().take()).unwrap_or_default();
             let short = loc.rsplit("/src/").next().unwrap_or(&loc).to_string();
